@@ -87,6 +87,9 @@ type Conn struct {
 	// this endpoint was closed (0 / -1 while open).
 	ClosedSeq int64
 	ClosedVT  time.Duration
+	// acceptedVT: virtual time at which Accept handed the server endpoint to
+	// the listening program (-1 while it waits in the listener's queue).
+	acceptedVT time.Duration
 	// ReadErr, if non-nil, is returned by the next Read (one shot).
 	ReadErr error
 	// Stats
@@ -380,6 +383,10 @@ type Listener struct {
 	// AcceptErrs is the number of temporary errors Accept returns before
 	// delivering connections again.
 	AcceptErrs int
+	// ErrNum/ErrDen: probability (fault stream) that an Accept with a
+	// connection waiting fails with a temporary error; at most 6 in a row.
+	ErrNum, ErrDen int
+	errStreak      int
 }
 
 // Listen registers a listener.
@@ -405,9 +412,16 @@ func (l *Listener) Accept() (net.Conn, error) {
 			s.Fault("accept_error")
 			return nil, &net.OpError{Op: "accept", Net: "tcp", Addr: l.addr, Err: tempError{}}
 		}
+		if l.ErrDen > 0 && len(l.queue) > 0 && l.errStreak < 6 && s.Chance(l.ErrNum, l.ErrDen) {
+			l.errStreak++
+			s.Fault("accept_error")
+			return nil, &net.OpError{Op: "accept", Net: "tcp", Addr: l.addr, Err: tempError{}}
+		}
 		if len(l.queue) > 0 {
 			c := l.queue[0]
 			l.queue = l.queue[1:]
+			l.errStreak = 0
+			c.acceptedVT = s.Now()
 			return c, nil
 		}
 		l.waiters = append(l.waiters, s.Current())
@@ -454,7 +468,7 @@ func Dial(s *simrt.Sim, network, address string) (*Conn, error) {
 	down := &Link{cap: n.DefaultCap}
 	ca := addr(fmt.Sprintf("10.0.0.%d:%d", id%250+1, 40000+id))
 	cl := &Conn{n: n, ID: id, Name: fmt.Sprintf("c%d", id), rd: down, wr: up, rdl: -1, wdl: -1, local: ca, remote: l.addr}
-	sv := &Conn{n: n, ID: id, Name: fmt.Sprintf("s%d", id), Server: true, rd: up, wr: down, rdl: -1, wdl: -1, local: l.addr, remote: ca}
+	sv := &Conn{n: n, ID: id, Name: fmt.Sprintf("s%d", id), acceptedVT: -1, Server: true, rd: up, wr: down, rdl: -1, wdl: -1, local: l.addr, remote: ca}
 	cl.peer, sv.peer = sv, cl
 	n.Conns = append(n.Conns, cl)
 	if n.OnDial != nil {
@@ -469,9 +483,30 @@ func Dial(s *simrt.Sim, network, address string) (*Conn, error) {
 	return cl, nil
 }
 
+// AcceptVT returns the virtual time at which the listening program accepted
+// this connection (either endpoint may be asked), or -1 if it has not yet.
+func (c *Conn) AcceptVT() time.Duration {
+	if c.Server {
+		return c.acceptedVT
+	}
+	if c.peer != nil {
+		return c.peer.acceptedVT
+	}
+	return -1
+}
+
 // InjectAcceptErrs makes the listener at address return n temporary errors.
 func (n *Net) InjectAcceptErrs(address string, k int) {
 	if l, ok := n.listeners[address]; ok {
 		l.AcceptErrs = k
+	}
+}
+
+// InjectAcceptErrRate makes every Accept of the listener at address that has a
+// connection waiting fail with a temporary error with probability num/den
+// (decided by the run's fault stream; at most 6 failures in a row).
+func (n *Net) InjectAcceptErrRate(address string, num, den int) {
+	if l, ok := n.listeners[address]; ok {
+		l.ErrNum, l.ErrDen = num, den
 	}
 }
